@@ -5,6 +5,7 @@
 From Coq Require Import String.
 From V Require Import Lib.Base Lib.Automata Lib.Bisim.
 From V Require Export C16.Gen C16.SpecCardano C16.SpecDMQ C16.SpecLeios.
+(* end of imports *)
 Local Open Scope string_scope.
 
 (* the property for one implementation automaton I and its specification S:
